@@ -98,8 +98,8 @@ def code_leg(ctx, binp, n):
                      {"msg": r.get("msg"), "where": r.get("where")})
     mism = []
     total = 0
-    for sh in range(0, len(usable), 400):
-        part = usable[sh:sh + 400]
+    for sh in range(0, len(usable), 600):
+        part = usable[sh:sh + 600]
         items = []
         for r in part:
             obs = coq_list([coq_strs(o) for o in (r.get("obs") or [])])
@@ -131,6 +131,15 @@ WITNESSES = [
     # the two defects repaired by fix: commits; they must not panic any more
     {"ID": "fixed-shift", "Lang": "bash", "Src": "set -- a b; shift -1"},
     {"ID": "fixed-getopts", "Lang": "bash", "Src": "set -- -ab; getopts ab x; set -- -a; getopts ab x"},
+    {"ID": "fixed-emptyname-unset", "Lang": "bash", "Src": "unset ''; unset -v ''"},
+    {"ID": "fixed-emptyname-test", "Lang": "bash", "Src": "[[ -v '' ]]; test -v ''; [[ -R '' ]]"},
+    {"ID": "fixed-emptyname-nameref", "Lang": "bash", "Src": "declare -n r=''; echo $r"},
+    {"ID": "fixed-emptyname-arith", "Lang": "bash", "Src": "b=(1 2); (( b[1] = 5 )); : $(( b[0]++ ))"},
+    {"ID": "fixed-new-params-o", "Lang": "bash", "Src": "", "Opts": ["params"], "Params": ["-o"]},
+    {"ID": "fixed-new-params-plus-o", "Lang": "bash", "Src": "echo $-", "Opts": ["params", "dir"], "Params": ["+o"]},
+    {"ID": "fixed-test-operand", "Lang": "bash", "Src": "[ \\( a = x -a -a b = x \\) -o c = c ]"},
+    {"ID": "fixed-assoc-literal", "Lang": "bash", "Src": "a=(['']=x y z); declare -A c=([x]=1 2 [y]=2); d=(['']=b [-1]=c d)"},
+    {"ID": "fixed-assoc-subscript", "Lang": "bash", "Src": "declare -A a=(); echo ${a[-1]} ${a[1+1]} ${a[1+1]=v}"},
 ]
 
 
@@ -178,6 +187,8 @@ def witnesses(ctx, binp):
         ctx.count(1)
         if not r:
             ctx.broken.append(("witness", "no result for " + w["ID"]))
+        elif r.get("parse_err") or r.get("hang"):
+            ctx.broken.append(("witness", "witness %s did not run (parse_err=%s hang=%s)" % (w["ID"], r.get("parse_err"), r.get("hang"))))
         elif r["panic"]:
             ctx.fail("fixed_defect_recurs", {"program": w["Src"]}, None, {"msg": r["msg"], "where": r["where"]})
     for k in known:
